@@ -53,6 +53,8 @@ def concretize(prop, ob):
             out.append(("valid_not_deleted", {"algorithm": a, "upper": False}))
     if name == "sync/acquired-identifier-is-free" and "class doc" in detail:
         out.append(("metadata_exclusion", {}))
+    if fn == "FileHashStore.__init__" and "frame-self" in name:
+        out.append(("mp_mode", {}))
     if name.startswith("fault["):
         # fault[<mode>]/<scenario>/<clause>; detail: "... after <prim>@mkloc(<kind>, ...)"
         import re as _re
